@@ -276,7 +276,7 @@ pub mod time {
     use super::Result;
     use crate::magic::This;
     use crate::{ExecutionError, Value};
-    use chrono::{Datelike, Days, Months, Timelike};
+    use chrono::{Datelike, Timelike};
     use std::sync::Arc;
 
     /// Duration parses the provided argument into a [`Value::Duration`] value.
@@ -341,12 +341,7 @@ pub mod time {
     pub fn timestamp_year_day(
         This(this): This<chrono::DateTime<chrono::FixedOffset>>,
     ) -> Result<Value> {
-        let year = this
-            .checked_sub_days(Days::new(this.day0() as u64))
-            .unwrap()
-            .checked_sub_months(Months::new(this.month0()))
-            .unwrap();
-        Ok(this.signed_duration_since(year).num_days().into())
+        Ok((this.ordinal0() as i64).into())
     }
 
     pub fn timestamp_month_day(
